@@ -23,16 +23,28 @@ Lemma shared_clients_lock_protected_lemma :
      ("CachedInsightsClient", "requirementsCache"); ("CachedInsightsClient", "cacheTimestamp")] = true.
 Proof. vm_compute. reflexivity. Qed.
 
-(* the read paths GetProject / GetVersions append to the shared registry slice without storing the result:
-   two concurrent lookups write the same spare slot of its backing array *)
-Definition append_pairs : list (string * nat * string * nat) :=
-  map (fun p => (ca_method (fst p), ca_line (fst p), ca_method (snd p), ca_line (snd p)))
-      (filter (fun p => match ca_kind (fst p), ca_kind (snd p) with AA, AA => true | _, _ => false end)
-              (unprotected_pairs client_accesses)).
+(* no method appends to a field slice in place without storing the result (the shape behind the repaired
+   MavenRegistryAPIClient race: append(m.registries, m.defaultRegistry) in the read paths), and the only method
+   that writes the Maven registry list is AddRegistry, which the callers run while the client is set up *)
+Definition in_place_appends : list caccess :=
+  filter (fun a => match ca_kind a with AA => true | _ => false end) client_accesses.
 
-Lemma maven_registry_append_race_lemma :
-  append_pairs <> [] /\
-  forallb (fun p => String.eqb (ca_struct (fst p)) "MavenRegistryAPIClient" && String.eqb (ca_field (fst p)) "registries")
-          (filter (fun p => match ca_kind (fst p), ca_kind (snd p) with AA, AA => true | _, _ => false end)
-                  (unprotected_pairs client_accesses)) = true.
-Proof. split; [vm_compute; discriminate | vm_compute; reflexivity]. Qed.
+Definition writers (s f : string) : list string :=
+  map ca_method (filter (fun a => String.eqb (ca_struct a) s && String.eqb (ca_field a) f && writes a) client_accesses).
+
+Lemma registries_never_appended_in_place_lemma :
+  in_place_appends = [] /\
+  writers "MavenRegistryAPIClient" "registries" = ["AddRegistry"] /\
+  existsb (fun a => String.eqb (ca_method a) "allRegistries" && String.eqb (ca_field a) "registries") client_accesses = true.
+Proof. vm_compute. repeat split; reflexivity. Qed.
+
+(* the discipline is not blind to the shape: the same table with the reads of allRegistries turned back into
+   in-place appends has unprotected append/append pairs on the registry list *)
+Definition with_in_place_append (a : caccess) : caccess :=
+  if String.eqb (ca_method a) "allRegistries" && String.eqb (ca_field a) "registries"
+  then mkcacc (ca_struct a) (ca_method a) (ca_field a) AA (ca_locks a) (ca_file a) (ca_line a) else a.
+
+Lemma append_shape_is_detected_lemma :
+  existsb (fun p => match ca_kind (fst p), ca_kind (snd p) with AA, AA => true | _, _ => false end)
+          (unprotected_pairs (map with_in_place_append client_accesses)) = true.
+Proof. vm_compute. reflexivity. Qed.
